@@ -296,7 +296,15 @@ func (r *realm) createMetaSession() {
 	r.dealer.setMetaPeer(cli)
 
 	// This session is the local leg of the router uplink.
-	r.metaSess = wamp.NewSession(rtr, metaID, wamp.Dict{"authrole": "trusted"}, nil)
+	// The meta session publishes testaments on behalf of clients, with the
+	// publish options the client gave. Those may ask for payload passthru mode,
+	// so the meta session announces that publisher feature. Without it the
+	// broker would take such a PUBLISH for a protocol violation and end the
+	// meta session, which leaves the realm without meta events and meta API.
+	metaRoles := wamp.Dict{"roles": wamp.Dict{
+		wamp.RolePublisher: wamp.Dict{"features": wamp.Dict{wamp.FeaturePayloadPassthruMode: true}},
+	}}
+	r.metaSess = wamp.NewSession(rtr, metaID, wamp.Dict{"authrole": "trusted"}, metaRoles)
 
 	// Run the handler for messages from the meta session.
 	go func() {
